@@ -256,6 +256,13 @@ class Ctx:
             # (binop WithOverflow).0 -> the arithmetic value
             if e.a.k == "binop" and e.b == "0":
                 return self.lin(E("binop", e.a.a.replace("WithOverflow", ""), e.a.b, e.a.c), depth + 1)
+            # payload of Some(checked_sub(x, y)) / Some(checked_add(x, y)): exactly x -/+ y (the payload is
+            # only read in the arm that matched Some)
+            ck = checked_arith(e.a)
+            if ck is not None and e.b == "Some.0":
+                l, r = self.lin(ck[1], depth + 1), self.lin(ck[2], depth + 1)
+                if l is not None and r is not None:
+                    return lin_add(l, r, -1 if ck[0] == "sub" else 1)
             return lin_var(("field", deep_repr(e)))
         if e.k == "binop":
             op = e.a.replace("WithOverflow", "").replace("Unchecked", "")
@@ -290,6 +297,17 @@ class Ctx:
             if x.k == "call" and x.a.fn is fn and not x.a.dest["p"]:
                 return self.length_of_local(x.a.dest["l"])
         return lin_var(("expr", deep_repr(e)))
+
+
+def checked_arith(e):
+    """('sub'|'add', x, y) if e is a call to an unsigned integer's checked_sub / checked_add."""
+    if e is None or e.k != "call":
+        return None
+    p = e.a.path
+    if p.startswith("core::num::<impl u") and p.endswith(("::checked_sub", "::checked_add")) and len(e.a.args) == 2:
+        ax = call_arg_exprs(e.a)
+        return ("sub" if p.endswith("sub") else "add", ax[0], ax[1])
+    return None
 
 
 def array_len_of_ty(ty):
@@ -442,6 +460,20 @@ def edge_constraints(fn, ctx):
             continue
         e = expr_of_operand(fn, t["x"])
         arms = {v: tb for v, tb in t["arms"]}
+        if e.k == "discr":
+            ck = checked_arith(e.a)
+            if ck is not None and ck[0] == "sub":
+                l, r = ctx.lin(ck[1]), ctx.lin(ck[2])
+                if l is not None and r is not None:
+                    some = [ge(l, r)]
+                    none = [ge(r, lin_add(l, lin_const(1)))]
+                    for v, tb in arms.items():
+                        out.setdefault((b, tb), []).extend(some if v == 1 else none if v == 0 else [])
+                    if set(arms) == {0} and t["otherwise"] not in arms.values():
+                        out.setdefault((b, t["otherwise"]), []).extend(some)
+                    elif set(arms) == {1} and t["otherwise"] not in arms.values():
+                        out.setdefault((b, t["otherwise"]), []).extend(none)
+            continue
         if 0 not in arms:
             continue
         ft, tt = arms[0], t["otherwise"]
